@@ -22,6 +22,7 @@
 import PercevalModel.Model.C01
 import PercevalModel.Found.Fock
 import PercevalModel.Found.Dist
+import PercevalModel.Found.SM
 import Mathlib.LinearAlgebra.Matrix.Notation
 
 open Matrix
@@ -268,5 +269,107 @@ def spatialDist {N : ℕ} (U : Matrix (Fin N) (Fin N) GQ) (s : List ℕ) : Dist.
 /-- `_postprocess_bsd_impl`: `output[merge(out_state)] += prob` -/
 def polDist {N : ℕ} (U : Matrix (Fin N) (Fin N) GQ) (s : List ℕ) : Dist.D :=
   Dist.mapKeys mergeState (spatialDist U s)
+
+/-! ### the long-lived simulator object (`PolarizationSimulator` around an inner `Simulator`)
+
+One object serves a whole *history* of requests.  It has two mutable fields: `_upol` (written by
+`set_circuit` / `_prepare_circuit`) and the circuit held by the wrapped spatial simulator (written
+by `_prepare_input` on **every** query: `self._simulator.set_circuit(Unitary(self._upol @ prep))`).
+The ingredients are abstract (`Env`): circuits `C`, polarised inputs `I`, matrices `M`, prepared
+spatial inputs `S`, answers `O`; the driver instantiates them with the definitions above. -/
+
+structure Layer (M : Type) where
+  /-- `PolarizationSimulator._upol` -/
+  upol : Option M
+  /-- the circuit currently held by the wrapped simulator -/
+  inner : Option M
+
+inductive Cmd (C I : Type) where
+  /-- `sim.set_circuit(c)` (also what `Processor.probs` does before every computation) -/
+  | setCircuit (c : C)
+  /-- `sim.probs(bs)` / `probs_svd(SVDistribution(bs))` -/
+  | probs (i : I)
+
+structure Env (C I M S O : Type) where
+  /-- `circuit.compute_unitary(use_polarization=True)` -/
+  compile : C → Except String M
+  /-- `convert_polarized_state`: spatial input on the doubled modes and preparation matrix -/
+  prepare : I → Except String (S × M)
+  /-- `Unitary(upol @ prep)`: the product and `Unitary.__init__`'s checks -/
+  mkUnitary : M → M → Except String M
+  /-- the wrapped simulation on the matrix it holds, then `_postprocess_bsd_impl` -/
+  simulate : M → S → O
+
+variable {C I M S O : Type}
+
+/-- One request.  A request that raises leaves the object as it was.  The answer of a query is
+computed by the wrapped simulator from the circuit *it holds* after `_prepare_input`. -/
+def sessionStep (env : Env C I M S O) (st : Layer M) : Cmd C I → Layer M × Except String (Option O)
+  | .setCircuit c =>
+    match env.compile c with
+    | .ok u => ({ st with upol := some u }, .ok none)
+    | .error e => (st, .error e)
+  | .probs i =>
+    match env.prepare i with
+    | .error e => (st, .error e)
+    | .ok (s, p) =>
+      match st.upol with
+      | none => (st, .error "TypeError")
+      | some u =>
+        match env.mkUnitary u p with
+        | .error e => (st, .error e)
+        | .ok w =>
+          let st' : Layer M := { st with inner := some w }
+          (st', .ok (st'.inner.map fun x => env.simulate x s))
+
+/-- the property statement for one (circuit, input) pair, without any object: what a query must
+answer when `c` is the circuit in force -/
+def answer (env : Env C I M S O) (c : Option C) (i : I) : Except String (Option O) :=
+  match env.prepare i with
+  | .error e => .error e
+  | .ok (s, p) =>
+    match c with
+    | none => .error "TypeError"
+    | some c =>
+      match env.compile c with
+      | .error e => .error e
+      | .ok u =>
+        match env.mkUnitary u p with
+        | .error e => .error e
+        | .ok w => .ok (some (env.simulate w s))
+
+/-- the stateless specification machine: its only memory is the circuit in force (the last one
+`set_circuit` accepted) -/
+def specStep (env : Env C I M S O) (cur : Option C) : Cmd C I → Option C × Except String (Option O)
+  | .setCircuit c =>
+    match env.compile c with
+    | .ok _ => (some c, .ok none)
+    | .error e => (cur, .error e)
+  | .probs i => (cur, answer env cur i)
+
+/-- the circuit in force after a history -/
+def inForce (env : Env C I M S O) (cur : Option C) (h : List (Cmd C I)) : Option C :=
+  SM.exec (specStep env) cur h
+
+/-- A *different* object design, for contrast (not the code): the inner circuit is re-written only
+when the preparation is not `idPrep` or nothing has been written yet ("an identity preparation
+needs no new product").  `Props/C13.lean: stale_design_is_history_dependent` shows that this
+design does not satisfy the history-independence theorem. -/
+def staleStep (env : Env C I M S O) (isId : M → Bool) (st : Layer M) :
+    Cmd C I → Layer M × Except String (Option O)
+  | .setCircuit c => sessionStep env st (.setCircuit c)
+  | .probs i =>
+    match env.prepare i with
+    | .error e => (st, .error e)
+    | .ok (s, p) =>
+      match st.upol with
+      | none => (st, .error "TypeError")
+      | some u =>
+        if isId p && st.inner.isSome then (st, .ok (st.inner.map fun x => env.simulate x s))
+        else match env.mkUnitary u p with
+          | .error e => (st, .error e)
+          | .ok w =>
+            let st' : Layer M := { st with inner := some w }
+            (st', .ok (st'.inner.map fun x => env.simulate x s))
 
 end PM.C13
